@@ -1,15 +1,15 @@
 (* C30 — Bison export describes the grammar Textmapper parses.
    Model: Syn/Bison.v (grammar/gen.go: Parser.RulesByNonterm, Grammar.ExprString, Grammar.TokensWithoutPrec;
-   the line skeleton of gen/templates/bison.go.tmpl).  Lemmas: Syn/Bison_proofs.v. *)
+   the line skeleton of gen/templates/bison.go.tmpl), Syn/BisonRead.v (a reader of the .y file, the boolean
+   well-formedness of names and rules).  Lemmas: Syn/Bison_proofs.v, Syn/BisonRead_proofs.v. *)
 From Coq Require Import List ZArith Bool.
-From TM Require Import Syn.Expr Syn.Sets Syn.Bison Syn.Bison_proofs.
+From TM Require Import Util.Ident Syn.Expr Syn.Sets Syn.Bison Syn.Bison_proofs Syn.BisonRead Syn.BisonRead_proofs.
 Import ListNotations.
 Local Open Scope Z_scope.
 
 (* PARTIAL by design: the text/template engine and the rewriting of action code (bison_parser_action) are
-   outside the model; that the file as a whole lists the rules and precedences of the tables is checked per
-   run by reading the produced .y file back (oracle) and by comparing it byte for byte with the model's
-   skeleton. *)
+   outside the model.  That the MODEL's file lists exactly the rules of the grammar is C30_read_back_exact
+   below; that the generated file is the model's file is compared byte for byte per run. *)
 
 (* rules_by_nonterm_partition: every rule appears exactly under its left-hand side, in the original order;
    the groups come in order of first appearance, each once *)
@@ -52,3 +52,57 @@ Proof. vm_compute. repeat split; reflexivity. Qed.
 Print Assumptions C30_rules_by_nonterm_partition.
 Print Assumptions C30_expr_string_symbols.
 Print Assumptions C30_expr_string_read_back.
+
+(* read_back_exact: for a well-formed grammar (bison_wf: symbol texts non-empty, without blank, tab, newline,
+   '%', '/', ':', ';', '|' and pairwise distinct; every rule a flat body under at most one %prec; symbols in
+   range) the rule section of the model's .y file exists, sits in the fixed frame of the file, and the reader
+   (lines -> groups -> words -> symbols) returns exactly the grouped rules: left-hand side, right-hand side
+   symbols (oneRule.accept) and %prec terminal of every rule, in order. *)
+Theorem C30_read_back_exact :
+  forall g, bison_wf g = true ->
+    exists section,
+      rule_section g = Some section /\
+      bison_text g = Some (file_of_section g section) /\
+      read_rules g section = Some (expected_groups g).
+Proof. exact read_back_exact_frame. Qed.
+
+(* what is read is the rule list itself: under each left-hand side its rules in the original order, the
+   left-hand sides in order of first appearance *)
+Theorem C30_read_back_rules :
+  forall g,
+    (forall x, glookup x (expected_groups g) = map rule_spec (filter (fun r => br_lhs r =? x) (bg_rules g))) /\
+    map fst (expected_groups g) = first_occurrences (map br_lhs (bg_rules g)).
+Proof. exact expected_groups_rules. Qed.
+
+(* read_back_file: with decls_wf in addition (start symbols are nonterminals, associativities 0..2, precedence
+   terminals are tokens) the reader applied to the WHOLE model file (split at the %% lines) returns the start
+   symbols with their no-eoi flags, the precedence list (associativity, terminals) in order, the %token
+   terminals (TokensWithoutPrec from the second on) and the grouped rules *)
+Theorem C30_read_back_file :
+  forall g, bison_wf g = true -> decls_wf g = true ->
+    exists text, bison_text g = Some text /\ read_file g text = Some (expected_file g).
+Proof. exact read_file_exact. Qed.
+
+(* non-vacuity: 4 terminals (eoi, '+' PLUS, id ID, u U), nonterminals E (4), L (5);
+   E : E PLUS {} E %prec U | /*.m*/ ID -> X ;   L : %empty | L x=E ; *)
+Definition ex_g : bgrammar :=
+  mkBG [mkBSym [101;111;105] [69;79;73]; mkBSym [39;43;39] [80;76;85;83]; mkBSym [105;100] [73;68]; mkBSym [117] [85];
+        mkBSym [69] [69]; mkBSym [76] [76]]
+       4 [(0, false); (1, true)] [(0, [1]); (2, [3])]
+       [mkBRule 4 (EPrec 3 (ESeq [ERef 4 []; ERef 1 []; ECmd [123;125]; ERef 4 []])) true;
+        mkBRule 5 (ESeq []) false;
+        mkBRule 4 (EArrow [88] [] (ESeq [EMarker [109]; ERef 2 []])) false;
+        mkBRule 5 (ESeq [ERef 5 []; EAssign [120] (ERef 4 [])]) false]
+       [].
+Example C30_read_back_example :
+  bison_wf ex_g = true /\ decls_wf ex_g = true /\
+  match rule_section ex_g with Some t => read_rules ex_g t | None => None end
+    = Some [(4, [([4; 1; 4], Some 3); ([2], None)]); (5, [([], None); ([5; 4], None)])] /\
+  match bison_text ex_g with Some t => read_file ex_g t | None => None end
+    = Some (mkY [(4, false); (5, true)] [(0, [1]); (2, [3])] [2]
+                [(4, [([4; 1; 4], Some 3); ([2], None)]); (5, [([], None); ([5; 4], None)])]).
+Proof. vm_compute. repeat split; reflexivity. Qed.
+
+Print Assumptions C30_read_back_exact.
+Print Assumptions C30_read_back_rules.
+Print Assumptions C30_read_back_file.
